@@ -23,6 +23,9 @@ fn canon(t: &StructureTag) -> StructureTag {
 }
 
 /// Blocking scripted server on one end of a socket pair. behaviour: ok | rc<N> | close<k> (close after k requests) | silent
+/// "idleclose<k>": the server answers its k-th request and then drops the connection; the client is idle at that moment (between two
+/// calls) and stays idle for a while. Nothing is canonicalised in this behaviour: is_closed() and the error of the next call are compared.
+static IDLE: std::sync::atomic::AtomicBool = std::sync::atomic::AtomicBool::new(false);
 fn server(mut sock: UnixStream, behaviour: String, log: Arc<Mutex<Vec<String>>>, gone: Arc<std::sync::atomic::AtomicBool>) {
     struct Flag(Arc<std::sync::atomic::AtomicBool>); impl Drop for Flag { fn drop(&mut self) { self.0.store(true, std::sync::atomic::Ordering::SeqCst); } }
     let _flag = Flag(gone);
@@ -56,6 +59,7 @@ fn server(mut sock: UnixStream, behaviour: String, log: Arc<Mutex<Vec<String>>>,
                     _ => {}
                 }
                 if !out.is_empty() && sock.write_all(&out).is_err() { return; }
+                if let Some(k) = behaviour.strip_prefix("idleclose") { if count >= k.parse::<usize>().unwrap_or(1) { return; } }
             } }
         }
     }
@@ -119,6 +123,7 @@ fn run_sync_side(sock: UnixStream, calls: &[(Mods, Op, u8)], closing: bool, gone
         // a server that closes the connection after k requests races with the client; both sides are brought to the same point before
         // the next call: once the server is gone, wait until the driver has noticed
         let _ = &gone;
+        if IDLE.load(std::sync::atomic::Ordering::SeqCst) { for _ in 0..100 { if gone.load(std::sync::atomic::Ordering::SeqCst) { break; } std::thread::sleep(Duration::from_millis(10)); } std::thread::sleep(Duration::from_millis(150)); }
         let r = canon_lost(r, op, closing);
         let closed = if matches!(op, Op::Abandon(_)) || closing { "-".to_string() } else { conn.is_closed().to_string() };
         out.push(format!("{} lastid={} closed={}", r, conn.last_id(), closed));
@@ -163,6 +168,7 @@ async fn run_async_side(sock: UnixStream, calls: &[(Mods, Op, u8)], closing: boo
         // let the driver settle so that is_closed() reflects the same instant as on the blocking side
         for _ in 0..5 { tokio::task::yield_now().await; }
         let _ = &gone;
+        if IDLE.load(std::sync::atomic::Ordering::SeqCst) { for _ in 0..100 { if gone.load(std::sync::atomic::Ordering::SeqCst) { break; } tokio::time::sleep(Duration::from_millis(10)).await; } tokio::time::sleep(Duration::from_millis(150)).await; }
         let r = canon_lost(r, op, closing);
         let closed = if matches!(op, Op::Abandon(_)) || closing { "-".to_string() } else { ldap.is_closed().to_string() };
         out.push(format!("{} lastid={} closed={}", r, ldap.last_id(), closed));
@@ -184,10 +190,13 @@ pub fn gen(rng: &mut Rng, n: usize, out: &mut Vec<String>) {
         }
         out.push(format!("sync {} {}", behaviour, toks.join(" ")));
     }
+    // the connection is lost while the caller is idle between two calls (known finding F33)
+    out.push("sync idleclose1 m:none:none:none delete/636e3d78 m:none:none:none delete/636e3d79".to_string());
 }
 
 pub fn run(args: &[&str]) -> (String, Option<String>) {
     let behaviour = args[0].to_string();
+    IDLE.store(behaviour.starts_with("idleclose"), std::sync::atomic::Ordering::SeqCst);
     // "Ssearch/.." = streaming_search, "Asearch/.." = streaming_search_with(EntriesOnly), "search/.." = search()
     let calls: Vec<(Mods, Op, u8)> = args[1..].chunks(2).map(|c| { let (st, o) = if c[1].starts_with("Ssearch/") { (1u8, &c[1][1..]) } else if c[1].starts_with("Asearch/") { (2u8, &c[1][1..]) } else if c[1].starts_with("Zsearch/") { (3u8, &c[1][1..]) } else { (0u8, c[1]) }; // a modifier token starting with "d": every modifier it names is first called with a throw-away value, then with the real one (the last call
         // wins - on both APIs alike); carried in the high bit of the mode byte
